@@ -216,6 +216,30 @@ int main(int argc, char** argv) {
       std::cout.flush();
       continue;
     }
+    if (kind == "A") {
+      // a connection buffer in use: two copies of message 0 are written, the first is decoded (consumed), then message i is appended
+      int i = std::stoi(a);
+      std::cout << "BEGIN A " << i << std::endl;
+      try {
+        ByteBuf buf;
+        bool ready = false;
+        try {
+          for (int k = 0; k < 2; k++) { @ROOT@ first; build(0, first); first.encode(buf); }
+          @ROOT@ sink; sink.decode(buf);
+          ready = true;
+        } catch (const std::exception& e) {
+          std::cout << "ENCA " << i << " SKIP " << clean(e.what()) << "\n";
+        }
+        if (ready) {
+          @ROOT@ obj; build(i, obj); obj.encode(buf);
+          std::cout << "ENCA " << i << " " << vtrace::hex(buf.data().data() + buf.reader_index(), buf.data().size() - buf.reader_index()) << "\n";
+        }
+      } catch (const std::exception& e) {
+        std::cout << "ENCA " << i << " ERR " << clean(e.what()) << "\n";
+      }
+      std::cout.flush();
+      continue;
+    }
     if (kind == "U") {
       int i = std::stoi(a);
       std::cout << "BEGIN U " << i << std::endl;
